@@ -224,7 +224,8 @@ def scenario(sc, tmproot, chooser_factory):
             fvalid = False
     alive = len(S.alive)
     p = {"min": mn, "max": mx, "sil": sl, "imin": 0, "isil": 0, "strict": bool(strict), "drop": bool(drop),
-         "nobs": len(kinds), "saver": bool(sc["saver"]), "cache": max(1, sc["cache_blocks"]), "stop": stop_after is not None}
+         "nobs": len(kinds), "saver": bool(sc["saver"]), "cache": max(1, sc["cache_blocks"]), "stop": stop_after is not None,
+         "joiner": (kinds.index("joiner") + 1) if "joiner" in kinds else 0}
     stopped = any(e["th"] == "main" and e["pt"] == "put" and e.get("q") == "tok" for e in S.events)
     obs_rec = {"p": p, "stream": stream, "judged": judged[0], "dets": dets, "processed": processed, "status": status, "alive": alive,
                "stopped": stopped, "file": file_ids, "fvalid": bool(fvalid), "joined_ok": joined_ok, "regfiles_ok": regfiles_ok,
@@ -395,7 +396,7 @@ def scenario_cli(sc, tmproot, chooser_factory):
     stream = list(verdicts) + [False] * (len(blocks) - len(verdicts))
     interrupted = any(e.get("pt") == "sleep" and e.get("dec") == "interrupt" for e in S.events)
     p = {"min": mn, "max": mx, "sil": sl, "imin": 0, "isil": 0, "strict": bool(strict), "drop": bool(drop),
-         "nobs": len(processed), "saver": bool(sc["saver"]), "cache": 1, "stop": True}
+         "nobs": len(processed), "saver": bool(sc["saver"]), "cache": 1, "stop": True, "joiner": 0}
     obs_rec = {"p": p, "stream": stream, "judged": len(verdicts), "dets": dets, "processed": processed, "status": status,
                "alive": len(S.alive), "stopped": bool(interrupted), "file": file_ids, "fvalid": bool(fvalid), "joined_ok": True,
                "regfiles_ok": regfiles_ok, "printed_ok": printed_ok and ret.get("code") == 0}
@@ -625,7 +626,8 @@ def check(prop, tier, replay=None):
     ]
     # ---- leg M
     inv = {"C12": ["TypeOK", "C12Safe"], "C13": ["TypeOK", "C13Safe"], "C14": ["TypeOK", "C14Safe", "C12Safe"]}[prop]
-    psets = {"quick": [("PSetQuick", 4)], "thorough": [("PSetQuick", 6), ("PSetObs2", 5), ("PSetCache", 5)]}[tier]
+    psets = {"quick": [("PSetQuick", 4)] + ([("PSetJoiner", 3)] if prop == "C13" else []),
+             "thorough": [("PSetQuick", 6), ("PSetObs2", 5), ("PSetCache", 5), ("PSetJoiner", 5)]}[tier]
     for pset, mf in psets:
         cfg = (f"CONSTANTS MaxFrames = {mf} PSet <- {pset} FixD1 = TRUE FixD2 = TRUE\nSPECIFICATION Spec\n"
                + "".join(f"INVARIANT {i}\n" for i in inv) + "PROPERTY Termination\nCHECK_DEADLOCK TRUE\n")
@@ -634,7 +636,8 @@ def check(prop, tier, replay=None):
         V.add_model(f"M:{pset}", res)
         if res["violated"] or not res["ok"]:
             raise MachineryError(f"leg M {pset}: {res['violated']} / {res['error']}\n" + tlc.counterexample(res, 80))
-        need = ["MStopTok", "TPollStop", "TFwd", "TNotify", "ObsGet", "ObsTimeout", "SGet", "SDrain", "STimeout", "MSStopObs"]
+        need = ["MStopTok", "TPollStop", "TNotify", "ObsGet", "ObsTimeout", "MSStopObs"]
+        need += ["ObsDrain"] if pset == "PSetJoiner" else ["TFwd", "SGet", "SDrain", "STimeout"]
         dead = [a for a in need if res["actions"].get(a, [0, 0])[1] == 0]      # taken at least once (timeouts stutter: no new state)
         if dead:
             raise MachineryError(f"leg M {pset}: actions never taken: {dead}")
@@ -708,7 +711,7 @@ def report_runs(V, prop, runs, wd, leg):
     rows, st = judge("WorkersObs", OBS_CFG, obs, wd, "wo_" + leg, weight=lambda x: len(x["stream"]) + 1)
     V.cov["states"] += st
     # step conformance only for runs whose observers are plain workers (the joiner's drain phase is a different thread shape)
-    idx = [i for i, r in enumerate(runs) if "joiner" not in r[1]["kinds"] and "cli" not in r[1]["kinds"] and r[2]["status"] == "done"]
+    idx = [i for i, r in enumerate(runs) if "cli" not in r[1]["kinds"] and r[2]["status"] == "done"]
     irows, ist = judge("WorkersTrace", IMPL_CFG, [runs[i][1] for i in idx], wd, "wt_" + leg, strip=lambda x: {"p": x["p"], "ev": x["ev"]})
     V.cov["states"] += ist
     accepted = {i: (r[2] == r[3]) for i, r in zip(idx, irows)}
